@@ -193,8 +193,11 @@ def run_tree(rec, tier, seed, ti, spec, other):
         if not pr["ok"]:
             p0 = pr["problems"][0]
             mech = "package-not-importable" if "import eolib failed" in p0 else "declared-type-not-exported"
+            has_empty = any(not getattr(d, "body", True) for _n, d, _p in spec.classes())
             if "expected an indented block" in p0:
-                mech = "empty-body-generates-invalid-python"
+                # finding 7 (fixed) was a declaration with an empty body; any other source of mis-indented code
+                # gets its own name
+                mech = "empty-body-generates-invalid-python" if has_empty else "generated-code-not-valid-python"
             else:
                 hz = campaign.import_hazards(spec)
                 if hz:
